@@ -20,6 +20,16 @@
                {no foreground, a foreground} x {nothing, a background colour, a text attribute}
      mode      logger slot -> "json" | "logfmt" | "color"   (what JSONMode()/ColorMode() report)
      named     logger slot -> the logger has a name           (what Name() reports)
+     dest      logger slot -> destination form (index into DestForms): the io.Writers the logger of
+               the slot writes to (SetWriter / AddWriter, SetErrorWriter / AddErrorWriter), in order.
+               DestForms[w] is a sequence of destinations [log, l, r]: log = FALSE is a PASSIVE
+               writer (it consumes its argument and returns); log = TRUE is a destination that
+               LOGS: inside its Write, BEFORE it reads its argument, it emits a record of class r
+               through the logger of slot l - an auditing / rotating / retrying writer reporting
+               what it is about to do (l may be another logger of any format, or the very logger
+               it serves: then at another severity / with other attributes).  Such a writer never
+               re-enters itself (it is passive while it is inside its own Write), so every
+               emission terminates.  Form 1 is the single passive destination every logger starts with.
    plus the constant Own[l], the attributes every logger of slot l is created with.
 
    EVENTS (one named action each, so that TLC labels the edges of the dumped graph):
@@ -29,6 +39,7 @@
                        "childset" / "with": l := p.New(name, options), p.New(name) + setters,
                        p.With<Mode>(b) + setters).  calls = sequence of [op, arg] with
                        op in {"json", "color"}, arg in {"def", "on", "off"} - every order.
+     Wire(l, w)        the destinations of the logger of slot l become DestForms[w].
      Emit(l, r)        logger l logs a record of class r = [sev, msg, args, caller, cfile, cls] through a
                        public entry point (Info..., XxxContext, LogAttrs): message classes incl.
                        multi-line and BIG ones, call-site attributes incl. errors and groups; with
@@ -42,6 +53,17 @@
      SetColors(v, f, b)  slog.SetLevelColors(v, <a colour of class f>, <a colour of class b>) for a
                        built-in or custom severity v of ColSevs - process-wide, like the widths.
 
+   DELIVERIES.  With destinations that log, ONE Emit hands several payloads to destinations:
+   Deliveries(st, l, r) lists them - [l, r, d, k] = the record of class r of logger l, at nesting
+   depth d (0 = the record of the Emit itself), as handed to the k-th destination of l - nested
+   ones first (they are complete before the destination that caused them reads its own argument).
+   What is judged is the payload a destination finds in the argument of its Write WHEN IT READS
+   IT, i.e. after the record it logged itself is out: the argument is the destination's until
+   Write returns.  Every delivery must be the COMPLETE record Expect says for ITS logger and
+   class: the outer record is not shortened, overwritten or mixed with the nested one, the
+   nested one is a record like any other, a second destination gets the same bytes as the first.
+   Nesting depth is bounded by the number of logging destinations (NestBounded).
+
    EXPECTATION.  Expect(st, l, r) = the abstract record of Encoder.tla an Emit must produce
    (format = st.mode[l], name, widths, testing from st; message and attributes Own[l] \o r.args
    from the class) together with the admissible sources of the level tag / level name.  It is
@@ -54,10 +76,12 @@
                           expectation of every future Emit - unchanged;
      ColoursOfOthersDoNotMatter  the expectation ignores the colours set for other severities;
      OthersDoNotMatter    the expectation for one logger ignores the modes of the others;
+     DestinationsDoNotMatter  ... and what any logger's destinations are or do: a record is the same
+                          record whether it is written at depth 0 or from inside a destination's Write;
      SwitchesDoNotMatter  ... and the debug / trace switches;  TypeOK, OblLive.
    EncoderHistMech.tla adds the hidden state an implementation keeps between records (pooled
    formatter residue, attribute pool, memoised tags) and shows which disciplines keep it from
-   leaking (invariant NoLeak) and that five sloppy ones do leak (witnesses).
+   leaking (invariant NoLeak) and that six sloppy ones do leak (witnesses).
 
    OBLIGATIONS (variable obl) are a DRIVER device of the exhaustive machine only: after a
    configuration event the next event is an Emit that observes it (the reconfigured logger
@@ -83,6 +107,7 @@ CONSTANTS Loggers,                \* logger slots, 1..n
           GCs,                    \* numbers of consecutive collections a GC event may make
           ColSevs, ColFgs, ColBgs, \* severities whose colours may be set; classes of fg ("none","fg") / bg ("none","bg","attr")
           ProcKinds,              \* subset of BOOLEAN: testing
+          DestForms, DestIds,     \* DestForms[w] = sequence of destinations [log, l, r]; DestIds: the forms Wire may install
           HistDepth
 
 VARIABLES st, hist, obl
@@ -114,6 +139,24 @@ RegGuard(s, c) == s.reg[c] = "none"
 RegStep(s, c, g) == [s EXCEPT !.reg[c] = g,
                               !.col = IF c \in ColSevs /\ g \in {"titlecolor", "tags", "tagsbg"} THEN [@ EXCEPT ![c] = NoLC] ELSE @]
 ColStep(s, v, f, b) == [s EXCEPT !.col[v] = [set |-> TRUE, fg |-> f, bg |-> b]]
+WireStep(s, l, w) == [s EXCEPT !.dest[l] = w]
+PassiveForm == 1
+InitDest == [l \in Loggers |-> PassiveForm]
+
+\* ---- the payloads one Emit hands to destinations (a destination is named <<slot, index>>; `act` =
+\* the destinations that are inside their Write: they do not log again)
+Dests(s, l) == DestForms[s.dest[l]]
+RECURSIVE Deliv(_, _, _, _, _)
+Deliv(s, l, r, d, act) ==
+    LET ds == Dests(s, l)
+        nested(k) == IF ds[k].log /\ <<l, k>> \notin act
+                     THEN Deliv(s, ds[k].l, ds[k].r, d + 1, act \cup {<<l, k>>}) ELSE <<>>
+    IN Cat([k \in DOMAIN ds |-> nested(k)]) \o [k \in DOMAIN ds |-> [l |-> l, r |-> r, d |-> d, k |-> k]]
+Deliveries(s, l, r) == Deliv(s, l, r, 0, {})
+\* the destination a delivery is handed to logs (before it reads) / an earlier destination of the same record did
+DestLogs(s, x) == Dests(s, x.l)[x.k].log
+EarlierLogs(s, x) == \E j \in 1..(x.k - 1) : Dests(s, x.l)[j].log
+LoggingDests(s) == {<<l, k>> \in Loggers \X (1..8) : k \in DOMAIN Dests(s, l) /\ Dests(s, l)[k].log}
 LcOf(s, sev) == IF sev \in ColSevs THEN s.col[sev] ELSE NoLC
 SwitchStep(s, k) == IF k = "debug" THEN [s EXCEPT !.dbg = TRUE] ELSE [s EXCEPT !.trc = TRUE]
 SwitchOffStep(s) == [s EXCEPT !.dbg = FALSE, !.trc = FALSE]
@@ -171,7 +214,7 @@ MkObl(o, s) == IF \E l \in Loggers, r \in RcIds : Observes(o, s, l, r) THEN o EL
 HInit ==
     /\ st \in {[testing |-> t, dbg |-> FALSE, trc |-> FALSE, width |-> 3, minw |-> 36,
                 reg |-> [c \in Customs |-> "none"], col |-> [v \in ColSevs |-> NoLC],
-                mode |-> InitMode, named |-> InitNamed] : t \in ProcKinds}
+                mode |-> InitMode, named |-> InitNamed, dest |-> InitDest] : t \in ProcKinds}
     /\ hist = <<>>
     /\ obl = NoObl
     /\ flat = <<>>
@@ -190,6 +233,9 @@ SetWidth(w)     == w # st.width /\ Config([st EXCEPT !.width = w], [k |-> "color
 SetMinW(m)      == m # st.minw /\ Config([st EXCEPT !.minw = m], [k |-> "color", x |-> 0])
 SetColors(v, f, b) == /\ st.col[v] # [set |-> TRUE, fg |-> f, bg |-> b]
                       /\ Config(ColStep(st, v, f, b), [k |-> "sevcolor", x |-> v])
+Wire(l, w)      == /\ st.dest[l] # w
+                   /\ \A k \in DOMAIN DestForms[w] : DestForms[w][k].log => DestForms[w][k].l \in Loggers /\ DestForms[w][k].r \in RcIds
+                   /\ Config(WireStep(st, l, w), [k |-> "logger", x |-> l])
 Emit(l, r)      == /\ Observes(obl, st, l, r)
                    /\ obl' = NoObl
                    /\ hist' = Push(hist, <<l, RecClasses[r].cls>>)
@@ -209,6 +255,7 @@ HNext ==
     \/ \E w \in Widths : SetWidth(w)
     \/ \E m \in MinWidths : SetMinW(m)
     \/ \E v \in ColSevs, f \in ColFgs, b \in ColBgs : SetColors(v, f, b)
+    \/ \E l \in Loggers, w \in DestIds : Wire(l, w)
 
 HSpec == HInit /\ [][HNext]_hvars
 
@@ -218,6 +265,7 @@ TypeOK ==
     /\ \A l \in Loggers : st.mode[l] \in Modes /\ st.named[l] \in BOOLEAN
     /\ \A c \in Customs : st.reg[c] \in RegForms \cup {"none"}
     /\ \A v \in ColSevs : st.col[v] \in LevelColours
+    /\ \A l \in Loggers : st.dest[l] \in DOMAIN DestForms
     /\ Len(hist) <= HistDepth
 \* an obligation never dead-locks the driver: some Emit can discharge it
 OblLive == obl = NoObl \/ \E l \in Loggers, r \in RcIds : Observes(obl, st, l, r)
@@ -237,6 +285,19 @@ OthersDoNotMatter ==
 SwitchesDoNotMatter ==
     \A l \in Loggers, r \in RcIds, d \in BOOLEAN, t \in BOOLEAN :
         Expect([st EXCEPT !.dbg = d, !.trc = t], l, r) = Expect(st, l, r)
+
+\* ... nor on what the destinations of any logger (its own included) are or do
+DestinationsDoNotMatter ==
+    \A l \in Loggers, r \in RcIds, l2 \in Loggers, w \in DOMAIN DestForms :
+        Expect(WireStep(st, l2, w), l, r) = Expect(st, l, r)
+\* one Emit hands finitely many payloads out: the record itself to each of its destinations, and a destination
+\* logs at most once per chain (it is passive while inside its own Write)
+NestBounded ==
+    \A l \in Loggers, r \in RcIds :
+        LET D == Deliveries(st, l, r) IN
+        /\ \A j \in DOMAIN D : D[j].d <= Cardinality(LoggingDests(st)) /\ D[j].l \in Loggers /\ D[j].r \in RcIds
+        /\ \A k \in DOMAIN Dests(st, l) : \E j \in DOMAIN D : D[j] = [l |-> l, r |-> r, d |-> 0, k |-> k]
+        /\ (LoggingDests(st) = {} => Len(D) = Len(Dests(st, l)))
 
 \* ... nor on the colours configured for ANOTHER severity
 ColoursOfOthersDoNotMatter ==
